@@ -1,14 +1,11 @@
-"""Trace generators, one per engine. Each returns a list of (id, [lines]); ids are unique within a run.
-All random choices come from the rng passed in (seeded from VERIF_SEED)."""
+"""rbuf engine: CC_Rbuf (src/cc_ring_buffer.c)."""
 import itertools
-
+DIR = "Rbuf"
+MODELS = ["Rbuf/RbufModel.vo"]
 BIG = [0, 1, 2**31, 2**63, 2**64 - 2, 2**64 - 1]
 
-def _mk(prefix, traces):
-    return [("%s%d" % (prefix, i), t) for i, t in enumerate(traces)]
-
 # ---------------------------------------------------------------------------------------------- rbuf
-def gen_rbuf(rng, tier, mode="default"):
+def generate(rng, tier, mode="default"):
     out = []
     L = 9 if tier == "quick" else 13
     caps = [1, 2, 3, 4] if tier == "quick" else [1, 2, 3, 4, 5]
@@ -41,16 +38,3 @@ def gen_rbuf(rng, tier, mode="default"):
         out.append(["T ? rbuf %s %s" % (cap, rng.choice(["conf", "libc"]))] + ops + ["END"])
     return out
 
-GENERATORS = {
-    "rbuf": gen_rbuf,
-}
-
-def generate(engine, rng, tier, mode="default"):
-    traces = GENERATORS[engine](rng, tier, mode)
-    res = []
-    for i, t in enumerate(traces):
-        tid = "%s-%d" % (engine, i)
-        hdr = t[0].split()
-        hdr[1] = tid
-        res.append((tid, [" ".join(hdr)] + t[1:]))
-    return res
